@@ -54,7 +54,7 @@ def name_pool(rng: random.Random, n: int) -> List[Any]:
 
 def rand_dfa(rng: random.Random, max_states: int = 6, alphabet: Optional[Sequence[str]] = None,
              partial: Optional[bool] = None, names: Optional[List[Any]] = None,
-             min_states: int = 1) -> DFA:
+             min_states: int = 1, junk_rows: Optional[bool] = None) -> DFA:
     """Shaped random valid DFA: unreachable states, dead states entered explicitly,
     non-final / dead initial state, empty / universal languages, duplicated states."""
     n = rng.randint(min_states, max_states)
@@ -101,6 +101,15 @@ def rand_dfa(rng: random.Random, max_states: int = 6, alphabet: Optional[Sequenc
         trans2[k] = dict(items)
     st = list(names)
     rng.shuffle(st)
+    if junk_rows is None:
+        junk_rows = rng.random() < 0.06
+    if junk_rows:
+        # rows keyed by names that are not states pass validation (never reachable); the names the
+        # library itself would invent (-1, -2, 0, 1, …) are the adversarial ones
+        for k in [x for x in (-1, -2, 0, 1, len(names), "junk") if x not in names][: rng.randint(1, 2)]:
+            trans2[k] = {a: rng.choice(names) for a in sy if partial is False or rng.random() < 0.7}
+            if not partial:
+                trans2[k] = {a: rng.choice(names) for a in sy}
     return DFA(states=set(st), input_symbols=set(sy), transitions=trans2,
                initial_state=rng.choice(names), final_states=finals, allow_partial=partial)
 
